@@ -526,6 +526,35 @@ func c19Shards(tier string) []mc.Shard {
 						fail("C19.symmetric", "%s.Equals(%s)=%v but the converse is %v", c, MapSpec{Kind: c.Kind, Gamma: tw[0], Offset: tw[1]}, e1, e2)
 					}
 				}
+				// the message handed out belongs to the caller: changing or resetting it must
+				// not show in the next conversion
+				{
+					p1 := m.ToProto()
+					snap := proto.Clone(p1)
+					p1.Gamma, p1.IndexOffset, p1.Interpolation = 99, -7, (p1.Interpolation+1)%4
+					if p2 := m.ToProto(); !proto.Equal(p2, snap) {
+						fail("C19.message-ownership", "%s: after the caller changed the message returned by ToProto, the next ToProto returns %v instead of %v", c, p2, snap)
+					} else {
+						p2.Reset()
+						if p3 := m.ToProto(); !proto.Equal(p3, snap) {
+							fail("C19.message-ownership", "%s: after the caller reset the message returned by ToProto, the next ToProto returns %v instead of %v", c, p3, snap)
+						}
+					}
+					res.Evaluations++
+				}
+				// accuracies 0.11 % to 25 % apart, built the ordinary way: never equal
+				if c.DefaultOf {
+					for _, f := range []float64{1.0011, 1.01, 1.1, 1.25} {
+						if !(c.Alpha*f < 1) {
+							continue
+						}
+						near := MapSpec{Kind: c.Kind, Alpha: c.Alpha * f}.New()
+						res.Evaluations++
+						if fromAcc.Equals(near) || near.Equals(fromAcc) {
+							fail("C19.accuracies-differ", "%s equals the mapping of the same kind built with accuracy %v (%.2f %% apart)", c, c.Alpha*f, (f-1)*100)
+						}
+					}
+				}
 				for form, r := range forms {
 					if !m.Equals(r) || !r.Equals(m) {
 						fail("C19.equal-after-round-trip", "%s: the mapping read back from its %s form is not equal to the original", c, form)
